@@ -3,6 +3,7 @@
 #include <memory>
 #include "lsm.hpp"
 #include "apitable.hpp"
+#include "ctorops.hpp"
 extern "C" {
 #include "reim/reim_fft_private.h"
 #include "cplx/cplx_fft_private.h"
@@ -134,7 +135,7 @@ inline void add_module_ops(std::vector<LsmOp>& ops, const std::vector<uint64_t>&
   gen_salt() = salt;
   BoxOpts o; o.Ns = Ns; o.max_size = 2; o.extra_sizes = {}; o.vmp_max_dim = 2; o.vmp_max_size = 2; o.ks = {10}; o.cf = {CFG_NATIVE}; o.inplace = true;
   for (auto& G : api_groups(o)) {
-    if (G.N >= 1024 && G.fam == F_VEC) continue;  // large N: only the transform / product / normalisation entry points
+    if (G.N >= 1024 && G.fam == F_VEC && VECOPS[G.sub].nin != 1) continue;  // large N: transform / product / normalisation entry points and the unary element-wise ops (copy, negate, rotate, automorphism: they have separate in-place kernels)
     // representatives per group: the last (i.e. largest) non-trivial shape, and the last non-trivial same-pointer (in-place) call
     std::shared_ptr<ApiCase> last, last_inplace;
     run_group(G, o, [&](ApiCase& c) {
@@ -181,40 +182,9 @@ inline void add_table_ops(std::vector<LsmOp>& ops) {
 }
 
 // ---- constructors: creating an object, using it once and deleting it must not touch any shared storage either
-// (two threads may create their own modules / tables at the same time)
+// (two threads may create their own modules / tables at the same time); the list is in ctorops.hpp
 inline void add_ctor_ops(std::vector<LsmOp>& ops) {
-  auto add = [&](const std::string& nm, std::function<uint64_t()> f) { LsmOp o; o.name = nm; o.family = "ctor"; o.run = f; ops.push_back(o); };
-  for (uint64_t N : {64, 2048}) for (int t = 0; t < 2; ++t) {
-    add(sfmt("new_module_info(%s,N=%llu) + dft + idft + delete_module_info", t ? "NTT120" : "FFT64", (unsigned long long)N), [N, t] {
-      MODULE* m = new_module_info(N, t ? NTT120 : FFT64);
-      GBuf a(N * 8, 8), d((t ? 32 : 8) * N, 16), b((t ? 16 : 8) * N, 24), tmp(vec_znx_idft_tmp_bytes(m) + 64, 0);
-      for (uint64_t i = 0; i < N; ++i) a.as<int64_t>()[i] = small_val(i + 3, 1 << 20);
-      vec_znx_dft(m, (VEC_ZNX_DFT*)d.p, 1, a.as<int64_t>(), 1, N);
-      vec_znx_idft(m, (VEC_ZNX_BIG*)b.p, 1, (VEC_ZNX_DFT*)d.p, 1, tmp.p);
-      uint64_t h = hash_buf(d, hash_buf(b));
-      delete_module_info(m);
-      return h; });
-  }
-  for (uint64_t n : {256}) for (int inv = 0; inv < 2; ++inv)
-    add(sfmt("q120_new_%s_bb_precomp(n=%llu) + transform + delete", inv ? "intt" : "ntt", (unsigned long long)n), [n, inv] {
-      q120_ntt_precomp* p = inv ? q120_new_intt_bb_precomp(n) : q120_new_ntt_bb_precomp(n);
-      GBuf d(32 * n, 8); for (size_t i = 0; i < 4 * n; ++i) d.as<uint64_t>()[i] = (uint64_t)probe62(i) * 3;
-      if (inv) q120_intt_bb_avx2(p, (q120b*)d.p); else q120_ntt_bb_avx2(p, (q120b*)d.p);
-      uint64_t h = hash_buf(d);
-      if (inv) q120_del_intt_bb_precomp(p); else q120_del_ntt_bb_precomp(p);
-      return h; });
-  for (uint32_t m : {64u, 4096u}) {
-    add(sfmt("new_reim_fft_precomp(m=%u) + reim_fft + delete", m), [m] { auto* p = new_reim_fft_precomp(m, 1); GBuf d(16 * m, 8); fill_d(d, m); reim_fft(p, d.as<double>()); uint64_t h = hash_buf(d); free(p); return h; });
-    add(sfmt("new_cplx_ifft_precomp(m=%u) + cplx_ifft + delete", m), [m] { auto* p = new_cplx_ifft_precomp(m, 1); GBuf d(16 * m, 8); fill_d(d, m); cplx_ifft(p, d.p); uint64_t h = hash_buf(d); free(p); return h; });
-  }
-  add("q120_new_vec_mat1col_product_{baa,bbb,bbc}_precomp + product + delete", [] {
-    auto* pa = q120_new_vec_mat1col_product_baa_precomp(); auto* pb = q120_new_vec_mat1col_product_bbb_precomp(); auto* pc = q120_new_vec_mat1col_product_bbc_precomp();
-    GBuf r(32, 8), x(32 * 5, 16), y(32 * 5, 24); for (size_t i = 0; i < 20; ++i) { x.as<uint64_t>()[i] = (uint64_t)probe62(i) & 0xFFFFFFFFull; y.as<uint64_t>()[i] = (uint64_t)probe62(i + 50) & 0xFFFFFFFFull; }
-    q120_vec_mat1col_product_baa_ref(pa, 5, (q120b*)r.p, (q120a*)x.p, (q120a*)y.p); uint64_t h = hash_buf(r);
-    q120_vec_mat1col_product_bbb_ref(pb, 5, (q120b*)r.p, (q120b*)x.p, (q120b*)y.p); h = hash_buf(r, h);
-    q120_vec_mat1col_product_bbc_ref(pc, 5, (q120b*)r.p, (q120b*)x.p, (q120c*)y.p); h = hash_buf(r, h);
-    q120_delete_vec_mat1col_product_baa_precomp(pa); q120_delete_vec_mat1col_product_bbb_precomp(pb); q120_delete_vec_mat1col_product_bbc_precomp(pc);
-    return h; });
+  for (auto& c : ctor_ops(false)) { LsmOp o; o.name = c.name; o.family = "ctor"; o.run = c.run; ops.push_back(o); }
 }
 
 // ---- explorer ---------------------------------------------------------------------------------------
@@ -258,6 +228,7 @@ struct Lsm {
         std::vector<uint8_t> before(I.stat, I.stat + I.stat_len);
         TrapInfo& t = trap_info();
         t.armed = 1;
+        alloc_track().poison = 0x00;  // environment answer: fresh heap memory reads as zero here, as 0xA5 / 0xFF elsewhere - no result may depend on it
         if (sigsetjmp(t.jb, 1) == 0) { base[k].out = ops[k].run(); t.armed = 0; }
         else { report(LSM_IMM, "lsm|baseline|" + ops[k].name, sfmt("in the initial state the call writes storage that must be immutable: %s", lsm_where(t.addr).c_str())); _exit(0); }
         std::vector<std::pair<uint32_t, uint32_t>> rg;
@@ -271,7 +242,7 @@ struct Lsm {
       if (!WIFEXITED(st) || WEXITSTATUS(st)) { report(LSM_CRASH, "lsm|baseline|" + ops[k].name, "the op crashes in the initial state"); base[k].out = 0; }
       if (ops[k].explicit_run) {
         p = fork();
-        if (p == 0) { base[k].expl = ops[k].explicit_run(); base[k].has_expl = 1; _exit(0); }
+        if (p == 0) { alloc_track().poison = 0xFF; base[k].expl = ops[k].explicit_run(); base[k].has_expl = 1; _exit(0); }
         waitpid(p, &st, 0);
         if (!WIFEXITED(st) || WEXITSTATUS(st)) report(LSM_CRASH, "lsm|baseline-explicit|" + ops[k].name, "the explicit-table form of the op crashes");
         else if (base[k].has_expl && base[k].expl != base[k].out) report(LSM_HIST, "lsm|initial|" + ops[k].name, "in the initial state the *_simple function does not return the same values as freshly built explicit tables");
@@ -297,8 +268,10 @@ struct Lsm {
     std::vector<uint8_t> before;
     if (protect) lsm_protect(true); else before.assign(I.stat, I.stat + I.stat_len);
     t.armed = 1;
-    if (sigsetjmp(t.jb, 1) == 0) { out = op.run(); t.armed = 0; if (protect) lsm_protect(false); }
+    alloc_track().poison = 0xA5;
+    if (sigsetjmp(t.jb, 1) == 0) { out = op.run(); t.armed = 0; alloc_track().poison = -1; if (protect) lsm_protect(false); }
     else {
+      alloc_track().poison = -1;
       if (protect) lsm_protect(false);
       report(LSM_IMM, id, sfmt("the call writes shared storage that must be immutable at this point: %s (%s)", lsm_where(t.addr).c_str(),
                                !protect ? "a module / table object created earlier" : op.warm_key.empty() ? "module / table operation" : op.tls_cached ? "its cache is thread-local" : "the function was already warmed up for this dimension"));
@@ -312,7 +285,7 @@ struct Lsm {
         for (size_t j = 0; j < ops.size(); ++j) if (ops[j].warm_key != op.warm_key && !ops[j].warm_key.empty() && overlaps(base[j], r.first, r.second)) { report(LSM_WARM, id, sfmt("first use writes the slot of another function/dimension (%s)", ops[j].name.c_str())); j = ops.size(); }
       }
     }
-    if (out != base[k].out) report(LSM_HIST, id, "the outputs differ from the outputs of the same call in the initial state (result depends on the call history)");
+    if (out != base[k].out) report(LSM_HIST, id, "the outputs differ from the outputs of the same call in the initial state (the result depends on the call history or on the content of freshly allocated memory)");
     if (base[k].has_expl && out != base[k].expl) report(LSM_HIST, id, "the outputs differ from the same operation through freshly built explicit tables");
     uint64_t h = lsm_canon_hash();
     if (enforce_imm && warmed && !op.tls_cached && h != parent_hash) report(LSM_WARM, id, "repeating a warmed-up call changed the library state (it must be a self-loop)");
